@@ -43,6 +43,9 @@ type Snippets struct {
 
 	// Currently no use
 	LoggingEndpoints LoggingEndpoints `json:"logging"`
+
+	// true once headers, response objects, etc. have been rendered into the scoped snippets
+	rendered bool
 }
 
 func (s *Snippets) EmbedSnippets(enableTLS bool) ([]Item, error) {
@@ -63,6 +66,13 @@ func (s *Snippets) EmbedSnippets(enableTLS bool) ([]Item, error) {
 	if scoped, ok := s.ScopedSnippets["init"]; ok {
 		snippets = append(snippets, scoped...)
 	}
+
+	// The lazy rendering below appends to the scoped snippets, it is done once: the interpreter
+	// embeds the snippets for every request, the rules must not pile up
+	if s.rendered {
+		return snippets, nil
+	}
+	s.rendered = true
 
 	// Render embedded snippets on extracting Fastly macros
 	for i := range s.Headers {
